@@ -58,10 +58,43 @@ def flatten_facts(facts: tuple) -> list:
 MATCH_METHODS = ("match", "fullmatch", "search")
 
 
+_CTX = [None]  # the analysis context, for looking through helpers that return `m.groups()` (set by Collector / Discharger)
+
+
+def _through_helper(t: Any) -> Any:
+    """`_matched_groups(cls, line)[k]` where the private helper is `m = R.match(line); if not m: raise ...; return m.groups()`:
+    the call is replaced by the helper's single return value with its parameters bound to the call's arguments, so that a
+    capture-group read behind a helper boundary is still seen as one."""
+    ctx = _CTX[0]
+    if ctx is None or not isinstance(t, tuple) or len(t) < 4 or t[0] != "call" or t[1][0] not in ("func", "closure", "boundcls"):
+        return t
+    g = ctx.prog.functions.get(t[1][1])
+    if g is None or isinstance(g.node, ast.Lambda):
+        return t
+    params = g.params()
+    bound = {}
+    if len(t[2]) > len(params):
+        return t
+    for p_, a_ in zip(params, t[2]):
+        bound[p_] = a_
+    for k_, v_ in t[3]:
+        bound[k_] = v_
+    try:
+        gs = ctx.ev.evaluate(g, bound, None, 0)
+    except Exception:
+        return t
+    rets = [e for e in gs.exits if e.kind == "ret"]
+    if len(rets) == 1 and not gs.loops and not gs.effects and not gs.unsupported:
+        return rets[0].value
+    return t
+
+
 def group_ref(t: Any):
     """(regex term, group number) when t is a capture-group read of a match object, else None."""
     if not isinstance(t, tuple) or not t:
         return None
+    if t[0] == "proj" and isinstance(t[1], tuple) and t[1][:1] == ("call",) and len(t[1]) >= 4 and t[1][1][0] in ("func", "closure", "boundcls"):
+        t = ("proj", _through_helper(t[1]), t[2])
     m = k = None
     if t[0] == "proj" and isinstance(t[1], tuple) and t[1][:2] == ("call", ("meth", "groups")) and len(t[1][2]) == 1 and isinstance(t[2], int):
         m, k = t[1][2][0], t[2] + 1
@@ -222,6 +255,7 @@ def regex_patterns(ctx: Ctx, R: Term) -> Optional[list]:
 
 class Collector:
     def __init__(self, ctx: Ctx, f, s: Summary) -> None:
+        _CTX[0] = ctx
         self.ctx = ctx
         self.f = f
         self.s = s
@@ -424,6 +458,7 @@ class Collector:
 # --------------------------------------------------------------------------------------------------
 class Discharger:
     def __init__(self, ctx: Ctx, contracts: dict) -> None:
+        _CTX[0] = ctx
         self.ctx = ctx
         self.contracts = contracts  # {(func qual, param): reason} non-emptiness contracts proved elsewhere
         from ..terms import _FuncEval
